@@ -218,6 +218,20 @@ def check_text(ctx, text, exp, wit, workload, user_models=(), files=None, nontri
         ms_after = list(p.list_decay_mother_names())
         if ms_after[: len(exp["order"])] != exp["order"]:
             ctx.violate("tables:mothers-order-after-queries", f"mothers after the table queries {ms_after[:len(exp['order']) + 2]}, file order {exp['order']}", wit)
+    if files is None and ctx.rng.random() < 0.2:
+        # a fresh object parsing the same text while the caller's filter turns warnings into errors (python -W error; pytest's filterwarnings = error):
+        # either no warning surfaces and the tables are the same, or one does -- then the parse was refused, and the object either says so or still answers
+        # with the file's tables
+        ok5, p5 = ctx.guard("parse-under-error-filter", wit, snapshot.parse_under_error_filter, text, user_models)
+        if ok5 and p5 is not None:
+            ctx.hit("parsed-with-warnings-as-errors:no-warning-surfaced")
+            for mech, msg in snapshot.compare_tables(p5, exp):
+                ctx.violate("warnings-as-errors:" + mech, msg, wit)
+        elif ok5 and snapshot.REFUSED:
+            bad = snapshot.answers_after_a_refused_parse(snapshot.REFUSED[0], exp)
+            ctx.hit("object-asked-after-its-parse-was-refused:" + ("says-it-is-not-parsed" if bad is None else "answers"))
+            for mech, msg in (bad or []):
+                ctx.violate("answers-after-a-refused-parse:" + mech, msg, wit)
     if files is None and ctx.rng.random() < 0.3:
         # the same instance parsed again must report the same tables (re-parsing is supported, it only warns)
         ctx.hit("second-parse-same-instance")
